@@ -4,7 +4,8 @@ Simulated: instrument producers (one per APID, own 14-bit counter) emit unsegmen
 messages split into FIRST / CONTINUATION* / LAST segments; a multiplexer interleaves them by
 seeded timing; the *space link* drops, duplicates, delays (reorders), flag-flips and count-jumps
 packets and producers restart (counter reset). What leaves the link is the history; each arrival's
-data field is stamped with its arrival index at delivery (duplicates are distinct arrivals).
+data field is stamped with its arrival index at delivery (duplicates are distinct arrivals; in half of
+the runs a duplicate is byte-identical to its original, as on a real link).
 The history is handed to the real packet_generator(combine_segmented_packets=True,
 secondary_header_bytes=sh) through a simulated socket that delivers exactly one arrival per
 recv (primary configuration: every output and warning is attributable to one arrival), or as
@@ -63,7 +64,7 @@ ASSUMPTIONS = [
 EXPECTED_PROBES = ("wrap_in_group", "three_apids_open", "orphan_after_complete", "orphan_after_rejected", "sh_gt_segment",
                    "u_while_open", "superseded_first", "group_emitted", "group_gap_rejected", "drop", "dup", "reorder",
                    "flag_flip", "count_jump", "producer_restart", "link_cut", "header_bits_vary", "wide_open_groups", "warnings_judged",
-                   "group_len_ge_17", "combined_gt_65542", "second_downlink")
+                   "group_len_ge_17", "combined_gt_65542", "second_downlink", "identical_duplicate")
 COV_UNIVERSE = 32
 
 U, F, C, L = factory.FLAG_UNSEG, factory.FLAG_FIRST, factory.FLAG_CONT, factory.FLAG_LAST
@@ -160,6 +161,9 @@ def run(ch, render=False):
     # header bits other than APID / flags / count may differ between the segments of one APID (the statement speaks
     # of "the same APID" only): drawn per arrival in a share of the runs
     hdr_vary = mode != "direct_simple" and ch.chance(1, 3, "hdr_vary")
+    # a link that duplicates a packet delivers the SAME bytes twice: in half of the runs a duplicate (and, in direct
+    # histories, a replay of the APID's latest arrival) is byte-identical to its original instead of carrying its own stamp
+    dup_identical = mode != "direct_simple" and ch.chance(1, 2, "dup_identical")
 
     # ---- build the history ---------------------------------------------------------------
     # an arrival is [apid, flag, count, packet_bytes]; packet bytes are built at delivery time so the
@@ -184,6 +188,10 @@ def run(ch, render=False):
     def deliver(apid, flag, count, dlen):
         idx = len(arrivals)
         arrivals.append([apid, flag, count, make_packet(idx, apid, flag, count, dlen)])
+
+    def deliver_copy(j):
+        arrivals.append(list(arrivals[j]))
+        w.probe("identical_duplicate")
 
     pipe = None
     if mode == "long":
@@ -226,6 +234,11 @@ def run(ch, render=False):
             if wide:
                 flag = ch.weighted([(3, L), (2, C), (1, F), (1, U)], "wflag")
             ai = ch.draw(len(apids), "apid")
+            if dup_identical and ch.chance(1, 6, "replay_prev"):
+                prev = [j for j in range(len(arrivals)) if arrivals[j][0] == apids[ai]]
+                if prev:
+                    deliver_copy(prev[-1])
+                    continue
             if mode == "direct_simple":
                 step = (1, 2)[ch.draw(2, "seq")]
                 dlen = 3
@@ -264,13 +277,19 @@ def run(ch, render=False):
             if enabled["dup"] and ch.chance(1, rate, "dup"):
                 copies = 2
                 w.fault("dup")
+            cell = {} if copies == 2 and dup_identical else None
             for c in range(copies):
                 budget[0] -= 1
                 w.after(delay + c * ch.pick((0, 1_000_000, 9_000_000), "dup_gap") if c else delay,
-                        arrive, apid, flag, count, dlen)
+                        arrive, apid, flag, count, dlen, cell)
 
-        def arrive(apid, flag, count, dlen):
-            deliver(apid, flag, count, dlen)
+        def arrive(apid, flag, count, dlen, cell=None):
+            if cell is not None and "j" in cell:
+                deliver_copy(cell["j"])
+            else:
+                if cell is not None:
+                    cell["j"] = len(arrivals)
+                deliver(apid, flag, count, dlen)
             w.ev("link", "arrive", apid, flag, count)
 
         def producer(pi):
